@@ -6,7 +6,7 @@ import pypose as pp
 from torch import nn
 from hypothesis import strategies as st
 
-from ..core import Sub
+from ..core import Sub, _frame_of as core_frame_of
 from ..ref import lie as R
 from .. import tu, gen
 from . import c04
@@ -239,6 +239,29 @@ def from_storage(case, d):
 RETR_TOL = 16 * float(np.sqrt(np.finfo(np.float64).eps))
 
 
+STEP_LIMIT = 30.0
+
+
+def step_outside_domain(case, rsol):
+    """'' or the reason why the retraction of a recorded solver answer cannot be compared with the reference: an entry beyond
+    STEP_LIMIT (exp of a log-scale of 700 overflows; everything is ill-conditioned long before), or for Sim3 a group step
+    whose |ad| exceeds the range where pypose's truncated sim3 series is documented to hold (the same bound as C04's)"""
+    glt = case["ltype"]
+    for c in rsol.calls:
+        if c[2] is None:
+            continue
+        x = np.asarray(c[2], dtype=np.float64).reshape(-1)
+        if not np.all(np.isfinite(x)) or (x.size and float(np.abs(x).max()) > STEP_LIMIT):
+            return "magnitude"
+        if glt == "Sim3":
+            o = 0
+            for (k, b, td, sd) in tangent_layout(case):
+                if case["inputs"][k]["kind"] == "G" and float(np.linalg.norm(R.ad("sim3", x[o:o + td]), 2)) > 0.2:
+                    return "sim3_truncation"
+                o += sd
+    return ""
+
+
 def retract(case, base, delta_t):
     """apply a tangent step with the reference retraction -> new parameter values"""
     glt = case["ltype"]
@@ -426,16 +449,24 @@ def check_model(case, rec, tol=1e-6):
     tgt = None if not case["target"] else tuple(torch.tensor(t) for t in tg)
     kw = {"weight": wlist} if case["weight_at_step"] else {}
     try:
-        with rec.sut("%s.step" % case["opt"], allow=(RuntimeError,) if case["vectorize"] else ()):
+        with rec.sut("%s.step" % case["opt"], allow=(Exception,)):
             loss = opt.step(torch.zeros(1), target=tgt, **kw)
-    except RuntimeError as e:
-        if "vmap" in str(e) or "batching rule" in str(e).lower():
+    except Exception as e:
+        if case["vectorize"] and isinstance(e, RuntimeError) and ("vmap" in str(e) or "batching rule" in str(e).lower()):
             # vectorize=True relies on torch.vmap, which pypose documents as only partially supported for its
             # autograd Functions: a loud refusal is not a wrong step
             rec.label("vectorize_unsupported")
             return
-        rec.fail("raises:RuntimeError:step", "step raised RuntimeError: %s" % str(e)[:300])
+        if step_outside_domain(case, rsol):
+            # a (nearly) singular system answered with an astronomically large step: Exp overflows (log-scale ~ 1e3), the
+            # parameters become Inf/NaN and the next loss evaluation refuses them loudly.  Such steps are outside the stated
+            # domain (bounded steps); the systems handed to the solver were still checked by other cases.
+            rec.discard_case("huge_step_then_raise")
+        rec.fail("raises:%s@%s" % (type(e).__name__, core_frame_of(e)), "%s.step raised %s: %s" % (case["opt"], type(e).__name__, str(e)[:300]))
         return
+    huge = step_outside_domain(case, rsol)
+    if huge:
+        rec.label("huge_step:" + huge)
     after = [p.detach().clone().numpy() if not isinstance(p, pp.LieTensor) else p.tensor().detach().clone().numpy() for p in model.ps]
     for k, inp in enumerate(case["inputs"]):
         if inp["frozen"]:
@@ -458,7 +489,7 @@ def check_model(case, rec, tol=1e-6):
         eb = float(np.abs(b.reshape(-1) - b_ref).max()) / max(1.0, float(np.abs(b_ref).max()))
         rec.check(eb <= tol, "gn_system_b", lambda: "GN: right-hand side differs from -W R by %.3g relative" % eb)
         # the applied step
-        if case["solver"] == "PINV" and rank_gap_ok and cond < 1e6:
+        if case["solver"] == "PINV" and rank_gap_ok and cond < 1e6 and not huge:
             d_ref = np.linalg.pinv(A_ref, rcond=1e-12) @ b_ref
             want = retract(case, base, d_ref)
             e = param_distance(case, want, after)
@@ -473,7 +504,7 @@ def check_model(case, rec, tol=1e-6):
             fd_floor = 1e-8 * (1.0 + float(np.linalg.norm(A_ref, 2))) ** 2 * (1.0 + float(np.linalg.norm(d)))   # the reference J is a finite difference
             rec.check(float(np.linalg.norm(g)) <= 1e-6 * sc2 * max(1.0, cond * 1e-6) + fd_floor, "gn_normal_eq", lambda: "GN(%s): step is not a least-squares solution: |A^T(A d - b)| = %.3g" % (case["solver"], float(np.linalg.norm(g))))
             want = retract(case, base, d)
-            e = param_distance(case, want, after)
+            e = param_distance(case, want, after) if not huge else 0.0
             rec.check(e <= RETR_TOL * max(1.0, float(np.abs(d).max())), "gn_retraction:%s" % glt, lambda: "GN: parameters differ from the retraction of the solver's answer by %.3g" % e)
     else:
         if not rec.check(1 <= len(rsol.calls) <= case["reject"] + 1, "lm_trials", "LM made %d trials with reject=%d" % (len(rsol.calls), case["reject"])):
@@ -518,6 +549,8 @@ def check_model(case, rec, tol=1e-6):
         e1, e0 = param_distance(case, stepped, after), param_distance(case, base, after)
         dmax = max(float(np.abs(c[2]).max()) if c[2] is not None and c[2].size else 0.0 for c in rsol.calls)
         t_ = RETR_TOL * max(1.0, dmax) * len(rsol.calls)
+        if huge:
+            e1 = 0.0        # not comparable: Exp of such a step overflows or (Sim3) leaves the documented truncation range
         rec.notes["lm_update"] = max(rec.notes.get("lm_update", 0), e1 / t_)
         rec.check(e1 <= t_, "lm_update:%s" % glt, lambda: "LM: parameters after the step differ from the retraction of the last solve by %.3g (tol %.3g; distance from the parameters before the call %.3g, %d trials)" % (e1, t_, e0, len(rsol.calls)))
         # the solver's answer itself must solve its system (checks the wrapper saw the real call)
